@@ -177,8 +177,8 @@ def complex_events(tier, rng, tid0):
                                 unit = 'A'
                             rd = {'mode': mode, 'z': [z.real, z.imag], 'p': p, 'text': text}
                             parts = tokenise_complex(text, mode, unit, table, z, p, m1, e1, sr, m2, e2, si)
-                            if parts is None:
-                                fails.append(rd)
+                            if parts is None or isinstance(parts, str):
+                                fails.append(dict(rd, why='part_' + parts if isinstance(parts, str) else 'untokenisable'))
                                 continue
                             for ev in parts:
                                 tid += 1
@@ -311,7 +311,14 @@ def tokenise_complex(text, mode, unit, table, z, p, m1, e1, sr, m2, e2, si):
                 return None
             pt['osgn'] = im_sign * pt['osgn']
             evs.append(dict(kind='float', m=m2, e10=e2, sgn=si, p=p, M=M, **pt))
-        # a part may be omitted only when it is below the smallest representable magnitude of the table
+        # a part may be omitted only when it is below the smallest unit of the prefix table (it cannot be written with it)
+        floor_ = 10.0 ** min(table)
+        for part, missing in ((z.real, re_part is None), (z.imag, im_part is None)):
+            if missing and abs(part) >= floor_:
+                # the library's documented rule (FloatPrecision.is_zero, pinned by its own unit tests): a part whose p-th digit lies below the
+                # smallest prefix of the table is treated as zero
+                lib_rule = math.floor(math.log10(abs(part))) - p + 1 < min(table)
+                return 'omitted_by_is_zero_rule' if lib_rule else 'omitted'
         return evs
     # polar: 'abs∠angle' or 'abs' when the angle is negligible
     if '∠' in text:
@@ -388,6 +395,6 @@ def extra(tier, seed, ctx, pool):
     for rd in cfails:
         r = CaseResult(case_id='cfail')
         r.observations = 1
-        r.mismatches.append({'what': f'{rd["mode"]} {rd["z"]}', 'got': repr(rd['text']), 'want': 'tokenisable text', 'signature': 'untokenisable:complex', 'detail': ''})
+        r.mismatches.append({'what': f'{rd["mode"]} {rd["z"]} p={rd["p"]}', 'got': repr(rd['text']), 'want': 'both parts rendered', 'signature': f'{rd.get("why", "untokenisable")}:complex', 'detail': ''})
         yield (json.dumps({'render': rd, 'event': None}), r)
     yield {'trace_validation': dict(info, verdicts=counts, module='Trace_C18.tla')}
